@@ -30,7 +30,7 @@ def main():
             'evidence_file': 'evidence/%s.json' % pid,
             'replay_cmd_template': './check %s --replay {path}' % pid,
             'engine': 'vq',
-            'level_claimed': {'category': P.get('level', 'proof'), 'text': P['level_text'],
+            'level_claimed': {'category': props.norm_level(P.get('level', 'proof')), 'text': P['level_text'],
                               'design_ref': P.get('design_ref', 'DESIGN.md section 4, ' + pid)},
             'level_note': P['level_note'],
             'technique': P.get('technique', 'contract-based deductive verification (Verus) of functions extracted mechanically from /repo'),
